@@ -4,6 +4,7 @@ CONSTANTS Addrs = {1,2,3}
   Mode = "c"
   Variant = "faithful"
   GcAtomic = FALSE
+  Prims = {0,1}
   MinAddr = FALSE
 VIEW View
 PROPERTY RefinesIdeal
